@@ -154,3 +154,13 @@ Definition judge_raw
            end
   | _ => bits a (is_cond_err iparse) false false
   end.
+
+(* suite history: one rule object (or several: copies, rules from the same dict) is parsed, its
+   detection set is changed, and it is parsed again; every parse is judged like a raw case against
+   the detection names present AT THAT MOMENT (the model is a function of those names only).
+   bits 1, 2, 4: all parses; bit 8: some parse. *)
+Definition judge_hist
+  (l : list (list str * str * outcome ptree * outcome (option ctree) * option (list bool))) : N :=
+  let bs := map judge_raw l in
+  bits (forallb (fun b => N.testbit b 0) bs) (forallb (fun b => N.testbit b 1) bs)
+       (forallb (fun b => N.testbit b 2) bs) (existsb (fun b => N.testbit b 3) bs).
